@@ -135,6 +135,9 @@ class TreeConverter(ast.NodeVisitor):
     return ["Name", node.id]
 
   def visit_Constant(self, node):
+    # Only constants that have a JSON form are supported (not bytes, complex numbers or Ellipsis).
+    if not isinstance(node.value, (str, int, float, bool, type(None))):
+      return self.generic_visit(node)
     return ["Const", node.value]
 
   visit_NameConstant = visit_Constant
